@@ -26,6 +26,7 @@ type limCase struct {
 	N      int    `json:"n"`
 	Expect int    `json:"expect"`
 	Limit  int    `json:"limit"`
+	Fails  bool   `json:"fails"`
 }
 
 type LimLine struct {
@@ -37,6 +38,7 @@ type LimLine struct {
 	N      int    `json:"n"`
 	W      int    `json:"w"`
 	Via    string `json:"via"`
+	Fails  bool   `json:"fails"`
 	Expect int    `json:"expect"`
 	Limit  int    `json:"limit"`
 	Panic  string `json:"panic"`
@@ -119,7 +121,7 @@ func c05Limits(args []string) error {
 }
 
 func runLimitCase(eng flows.Engine, lc *limCase, w int, via string) *LimLine {
-	line := &LimLine{T: lc.T, F: lc.F, R: lc.R, Sink: lc.Sink, N: lc.N, W: w, Via: via, Expect: lc.Expect, Limit: lc.Limit, Out: -1, OutBytes: -1, Valid: true, Stored: -1}
+	line := &LimLine{T: lc.T, F: lc.F, R: lc.R, Sink: lc.Sink, N: lc.N, W: w, Via: via, Fails: lc.Fails, Expect: lc.Expect, Limit: lc.Limit, Out: -1, OutBytes: -1, Valid: true, Stored: -1}
 	resetGenerators(1)
 	val := textOf(lc.N, w)
 	if lc.Sink == "msg_att" {
@@ -133,6 +135,9 @@ func runLimitCase(eng flows.Engine, lc *limCase, w int, via string) *LimLine {
 	tpl := "@trigger.params.v"
 	if via == "literal" {
 		tpl = strings.ReplaceAll(val, "@", "@@")
+	}
+	if lc.Fails {
+		tpl += "@(1 / 0)" // evaluates to nothing, logs an error, and makes the evaluation as a whole "not ok"
 	}
 	att := attPrefix + tpl
 	if lc.Sink == "msg_att" && lc.N <= len(attPrefix) {
@@ -304,6 +309,9 @@ func runLimitCase(eng flows.Engine, lc *limCase, w int, via string) *LimLine {
 				observe(m.Value)
 			}
 		}
+	}
+	if line.Out < 0 {
+		return line // the engine changed nothing: what the contact / run held before is not the engine's output
 	}
 	switch lc.Sink {
 	case "name":
